@@ -5,6 +5,7 @@ package main
 
 import (
 	"bytes"
+	"encoding/binary"
 	"encoding/hex"
 	"fmt"
 	"hash/crc32"
@@ -23,7 +24,6 @@ import (
 
 	"github.com/tendermint/tendermint/consensus"
 	auto "github.com/tendermint/tendermint/libs/autofile"
-	tmos "github.com/tendermint/tendermint/libs/os"
 	tmcons "github.com/tendermint/tendermint/proto/tendermint/consensus"
 
 	"verifharness/core"
@@ -281,27 +281,98 @@ func (s *sess) dump() string {
 	return fmt.Sprintf("closed files=%s head=%d cor=%s", fl, head, cor)
 }
 
-// closeWal releases the group: what BaseWAL.OnStop does (flush+fsync, close the head) plus stopping
-// the AutoFile's own goroutines.
+const (
+	defaultHeadLimit  = 10 * 1024 * 1024
+	defaultTotalLimit = 1024 * 1024 * 1024
+)
+
+// closeWal = BaseWAL.Stop (flush+fsync, stop the tickers, close the head) plus stopping the
+// AutoFile's own goroutines.
 func (s *sess) closeWal() {
 	if s.wal == nil {
 		return
 	}
-	g := s.wal.Group()
-	g.Close()
-	_ = g.Head.Close()
+	stopWal(s.wal)
 	s.wal = nil
 }
 
-func (s *sess) openWal() error {
+func stopWal(w *consensus.BaseWAL) {
+	g := w.Group()
+	if w.IsRunning() {
+		_ = w.Stop()
+		w.Wait()
+	} else {
+		g.Close()
+	}
+	_ = g.Head.Close()
+}
+
+// newWal = NewWAL with the case's limits; the periodic tickers are pushed out of the way so that
+// nothing happens behind the op sequence's back.
+func (s *sess) newWal() (*consensus.BaseWAL, error) {
 	w, err := consensus.NewWAL(s.path, auto.GroupHeadSizeLimit(s.hl), auto.GroupTotalSizeLimit(s.tl),
 		auto.GroupCheckDuration(time.Hour))
 	if err != nil {
-		return err
+		return nil, err
+	}
+	w.SetFlushInterval(time.Hour)
+	return w, nil
+}
+
+// openWal = OpenWAL: NewWAL + the real BaseWAL.Start. OnStart writes EndHeightMessage{0} stamped
+// with the current time into an empty head; that record is then replaced by the op's e0 (same
+// message, fixed time) so that sizes are reproducible. Returns whether the code wrote the marker.
+func (s *sess) openWal(e0 []byte) (bool, error) {
+	before := s.headSize()
+	w, err := s.newWal()
+	if err != nil {
+		return false, err
+	}
+	if err := w.Start(); err != nil {
+		return false, err
+	}
+	wrote := false
+	if before == 0 && s.headSize() > 0 {
+		wrote = true
+		// canonicalise the time stamp in place (same inode; the group appends with O_APPEND and
+		// has nothing buffered): the head must hold exactly one height-0 marker
+		if !s.normaliseE0(e0) {
+			stopWal(w)
+			return false, fmt.Errorf("OnStart wrote something else than the height-0 marker")
+		}
 	}
 	s.wal = w
 	s.synced = s.headSize()
-	return nil
+	return wrote, nil
+}
+
+// normaliseE0: if the head file is exactly one EndHeightMessage{0} record, rewrite it as frame(e0).
+func (s *sess) normaliseE0(e0 []byte) bool {
+	fh, err := os.Open(s.path)
+	if err != nil {
+		return false
+	}
+	dec := consensus.NewWALDecoder(fh)
+	m, err := dec.Decode()
+	var err2 error
+	if err == nil {
+		_, err2 = dec.Decode()
+	}
+	fh.Close()
+	if err != nil || err2 != io.EOF {
+		return false
+	}
+	if e, ok := m.Msg.(consensus.EndHeightMessage); !ok || e.Height != 0 {
+		return false
+	}
+	out, err := os.Create(s.path)
+	if err != nil {
+		return false
+	}
+	out.Write(frameOf(e0))
+	out.Sync()
+	out.Close()
+	return true
 }
 
 // write = BaseWAL.Write with the time taken from the data instead of tmtime.Now().
@@ -330,17 +401,6 @@ func (s *sess) sync() string {
 	return "ok"
 }
 
-// onStart = BaseWAL.OnStart's rule for an empty head (the time-stamped marker comes from the op).
-func (s *sess) onStart(e0 []byte) bool {
-	size, err := s.wal.Group().Head.Size()
-	if err == nil && size == 0 {
-		if s.write(e0) == "ok" && s.sync() == "ok" {
-			return true
-		}
-	}
-	return false
-}
-
 func decodeRest(rd io.Reader) (string, int, string) {
 	dec := consensus.NewWALDecoder(rd)
 	var recs []string
@@ -366,83 +426,169 @@ func decodeRest(rd io.Reader) (string, int, string) {
 	return strings.Join(recs, ","), len(recs), end
 }
 
-// catchup transcribes catchupReplay (consensus/replay.go) at the WAL level, initial height 1.
-func (s *sess) catchup(h int64) (string, bool) {
-	opt := &consensus.WALSearchOptions{IgnoreDataCorruptionErrors: true}
-	gr, found, err := s.wal.SearchForEndHeight(h, opt)
+// normaliseFirstE0: if the first record of the head is a height-0 marker with a time stamp of its
+// own (neither e0 nor em: every other height-0 marker of the stream carries a fixed time), replace
+// it by frame(e0) in place.
+func (s *sess) normaliseFirstE0(e0, em []byte) bool {
+	b, err := os.ReadFile(s.path)
+	if err != nil || len(b) < 8 {
+		return false
+	}
+	n := int(binary.BigEndian.Uint32(b[4:8]))
+	if n == 0 || len(b) < 8+n {
+		return false
+	}
+	d := b[8 : 8+n]
+	tm, err := unmarshal(d)
+	if err != nil || bytes.Equal(d, e0) || bytes.Equal(d, em) {
+		return false
+	}
+	if e, ok := tm.Msg.(consensus.EndHeightMessage); !ok || e.Height != 0 {
+		return false
+	}
+	nb := append(append([]byte{}, frameOf(e0)...), b[8+n:]...)
+	fh, err := os.OpenFile(s.path, os.O_WRONLY|os.O_TRUNC, 0o600)
 	if err != nil {
-		if consensus.IsDataCorruptionError(err) {
-			return "search-err:" + errKind(err), true
+		return false
+	}
+	fh.Write(nb)
+	fh.Sync()
+	fh.Close()
+	return true
+}
+
+// normaliseMarker replaces the now-stamped EndHeightMessage{eh} that catchupReplay appended at the
+// very end of the head by frame(em) (same message, fixed time), in place.
+func (s *sess) normaliseMarker(eh int64, em []byte) bool {
+	b, err := os.ReadFile(s.path)
+	if err != nil {
+		return false
+	}
+	for l := 9; l <= 64 && l <= len(b); l++ {
+		t := b[len(b)-l:]
+		if int(binary.BigEndian.Uint32(t[4:8])) != l-8 || crc32.Checksum(t[8:], crc32c) != binary.BigEndian.Uint32(t[0:4]) {
+			continue
 		}
-		return "search-err:" + err.Error(), false
+		tm, err := unmarshal(t[8:])
+		if err != nil {
+			continue
+		}
+		if e, ok := tm.Msg.(consensus.EndHeightMessage); !ok || e.Height != eh {
+			continue
+		}
+		nb := append(append([]byte{}, b[:len(b)-l]...), frameOf(em)...)
+		fh, err := os.OpenFile(s.path, os.O_WRONLY|os.O_TRUNC, 0o600)
+		if err != nil {
+			return false
+		}
+		fh.Write(nb)
+		fh.Sync()
+		fh.Close()
+		return true
 	}
-	if gr != nil {
-		gr.Close()
+	return false
+}
+
+func corruptionKind(text string) string {
+	if i := strings.Index(text, "DataCorruptionError["); i >= 0 {
+		return errKind(fmt.Errorf("%s", text[i:]))
 	}
-	if found {
-		return "found-current", false
+	return "other"
+}
+
+// recover runs the REAL State.OnStart over the WAL (hook VerifStartWithWAL) and reads the outcome
+// of each catch-up attempt off the State's log.
+func (s *sess) recover(h int64, e0, em []byte) string {
+	st := consensus.VerifStartWithWAL(s.wal, s.path, h)
+	var attempts []string
+	steps := 0
+	repairKind := ""
+	for _, l := range st.Log {
+		switch {
+		case strings.HasPrefix(l, "I|Replay: New Step"):
+			steps++
+		case strings.HasPrefix(l, "I|Replay: Done"):
+			attempts = append(attempts, fmt.Sprintf("ok(%d)", steps))
+			steps = 0
+		case strings.HasPrefix(l, "E|Replay: WAL did not contain #ENDHEIGHT for the previous height; marker written"):
+			attempts = append(attempts, "marker-written")
+			steps = 0
+		case strings.HasPrefix(l, "E|error on catchup replay; proceeding to start state anyway"):
+			switch {
+			case strings.Contains(l, "wal should not contain #ENDHEIGHT"):
+				attempts = append(attempts, "found-current")
+			case strings.Contains(l, "WAL does not contain #ENDHEIGHT"):
+				attempts = append(attempts, "no-marker")
+			case strings.Contains(l, "below initial height"):
+				attempts = append(attempts, "below-initial")
+			case strings.Contains(l, "DataCorruptionError"):
+				attempts = append(attempts, "unrepaired-corrupt:"+corruptionKind(l))
+			default:
+				attempts = append(attempts, "other-error")
+			}
+			steps = 0
+		case strings.HasPrefix(l, "E|the WAL file is corrupted; attempting repair"):
+			repairKind = corruptionKind(l)
+			steps = 0
+		}
 	}
-	if h < 1 {
-		return "below-initial", false
+	if st.Err != nil {
+		if consensus.IsDataCorruptionError(st.Err) {
+			attempts = append(attempts, fmt.Sprintf("corrupt:%s(%d)", errKind(st.Err), steps))
+		} else {
+			attempts = append(attempts, "start-error")
+		}
+	}
+	nw, _ := st.Wal.(*consensus.BaseWAL)
+	if nw == nil {
+		s.wal = nil
+		return "res=lost-wal"
 	}
 	endHeight := h - 1
 	if h == 1 {
 		endHeight = 0
 	}
-	gr, found, err = s.wal.SearchForEndHeight(endHeight, opt)
-	if err != nil && err != io.EOF {
-		if consensus.IsDataCorruptionError(err) {
-			return "search-err:" + errKind(err), true
+	markerWritten := len(attempts) > 0 && attempts[len(attempts)-1] == "marker-written"
+	if repairKind == "" {
+		s.wal = nw
+		if len(attempts) != 1 {
+			return "res=odd:" + strings.Join(attempts, "/")
 		}
-		return "search-err:" + err.Error(), false
+		if markerWritten {
+			if !s.normaliseMarker(endHeight, em) {
+				return "res=marker-written-but-not-at-the-end"
+			}
+			s.synced = s.headSize()
+		}
+		return "res=" + attempts[0]
 	}
-	if !found {
-		return "no-marker", false
+	// a repair happened: the State holds a new WAL opened by OpenWAL (default limits, default
+	// tickers). Replace it by an equivalent one without tickers; nothing is buffered.
+	stopWal(nw)
+	if s.wal != nil && s.wal != nw {
+		_ = s.wal.Group().Head.Close() // the old, stopped WAL's AutoFile goroutines
 	}
-	defer gr.Close()
-	_, n, end := decodeRest(gr)
-	if strings.HasPrefix(end, "corrupt:") {
-		return fmt.Sprintf("%s(%d)", end, n), true
+	s.wal = nil
+	s.hl, s.tl = defaultHeadLimit, defaultTotalLimit
+	if markerWritten && !s.normaliseMarker(endHeight, em) {
+		return "res=marker-written-but-not-at-the-end"
 	}
-	if end != "eof" {
-		return end, false
-	}
-	return fmt.Sprintf("ok(%d)", n), false
-}
-
-// recover transcribes the catch-up loop of State.OnStart (consensus/state.go).
-func (s *sess) recover(h int64, e0 []byte) string {
-	r, corrupt := s.catchup(h)
-	if !corrupt {
-		return "res=" + r
-	}
-	kind := strings.TrimPrefix(r, "corrupt:")
-	if i := strings.IndexByte(kind, '('); i >= 0 {
-		kind = kind[:i]
-	}
-	kind = strings.TrimPrefix(kind, "search-err:")
-	// 1) cs.wal.Stop()
-	_ = s.wal.FlushAndSync()
-	s.closeWal()
-	// 2) backup, 3) repair
-	cor := s.path + ".CORRUPTED"
-	if err := tmos.CopyFile(s.path, cor); err != nil {
-		return "res=copy-failed"
-	}
-	if err := consensus.VerifRepairWalFile(cor, s.path); err != nil {
-		return "res=repair-failed"
-	}
-	// loadWalFile (the stream keeps the case's limits; the node would use the defaults)
-	if err := s.openWal(); err != nil {
+	// OpenWAL's OnStart put a now-stamped height-0 marker into a head the repair left empty
+	wrote := s.normaliseFirstE0(e0, em)
+	if _, err := s.openWal(e0); err != nil {
 		return "res=open-failed"
 	}
 	probeRepair()
 	if !repairSyncs {
 		s.synced = 0 // rewritten in place (O_TRUNC) and never fsynced
 	}
-	w := s.onStart(e0)
-	r2, _ := s.catchup(h)
-	return fmt.Sprintf("res=repair:%s/%s wrote=%v", kind, r2, w)
+	second := "none"
+	if len(attempts) == 1 {
+		second = attempts[0]
+	} else if len(attempts) > 1 {
+		second = "odd:" + strings.Join(attempts, "/")
+	}
+	return fmt.Sprintf("res=repair:%s/%s wrote=%v", repairKind, second, wrote)
 }
 
 func execCase(c core.Case) []string {
@@ -478,10 +624,10 @@ func (s *sess) do(op string) string {
 			return "bad-op"
 		}
 		s.hl, s.tl = hl, tl
-		if err := s.openWal(); err != nil {
+		w, err := s.openWal(e0)
+		if err != nil {
 			return "err:" + err.Error()
 		}
-		w := s.onStart(e0)
 		return fmt.Sprintf("ok wrote=%v %s", w, s.dump())
 	case "write", "wsync":
 		d, ok := unhx(m["data"])
@@ -580,6 +726,32 @@ func (s *sess) do(op string) string {
 			return "err:" + err.Error()
 		}
 		return "ok"
+	case "mkfile":
+		i, ok1 := natOf(m, "i")
+		rs, ok2 := m["recs"]
+		if !ok1 || !ok2 || s.wal != nil {
+			return "bad-op"
+		}
+		var buf bytes.Buffer
+		if rs != "-" && rs != "" {
+			for _, h := range strings.Split(rs, ",") {
+				d, ok := unhx(h)
+				if !ok {
+					return "bad-op"
+				}
+				tm, err := unmarshal(d)
+				if err != nil {
+					return "bad-data"
+				}
+				if err := consensus.NewWALEncoder(&buf).Encode(tm); err != nil {
+					return "bad-data"
+				}
+			}
+		}
+		if err := os.WriteFile(fmt.Sprintf("%s.%03d", s.path, i), buf.Bytes(), 0o600); err != nil {
+			return "err:" + err.Error()
+		}
+		return s.dump()
 	case "raw":
 		d, ok := unhx(m["data"])
 		if !ok || s.wal != nil {
@@ -626,10 +798,11 @@ func (s *sess) do(op string) string {
 	case "recover":
 		h, ok1 := intOf(m, "h")
 		e0, ok2 := unhx(m["e0"])
-		if !ok1 || !ok2 || s.wal == nil {
+		em, ok3 := unhx(m["em"])
+		if !ok1 || !ok2 || !ok3 || s.wal == nil {
 			return "bad-op"
 		}
-		return s.recover(h, e0) + " " + s.dump()
+		return s.recover(h, e0, em) + " " + s.dump()
 	case "ls":
 		if !bare {
 			return "bad-op"
@@ -667,7 +840,7 @@ func main() {
 		Rule:       "a case counts when it contains a crash, flip, raw append, rotation or pruning and afterwards a reader (readall/search/recover) returned at least one record or marker",
 		Assumptions: []string{
 			"crash = the head file keeps a prefix of the bytes handed to it, at least up to the last fsync the code performed (simulated by truncating the file; whether repairWalFile fsyncs is observed with strace); rename and file removal are atomic and durable; rotated files are not torn",
-			"BaseWAL.Write/WriteSync/OnStart and the catch-up loop of State.OnStart/catchupReplay are transcribed in the harness (fixed time stamps; the node rig is not started); encoder, decoder, group, reader, SearchForEndHeight and repairWalFile are the real code",
+			"the start-up path is the real code: BaseWAL.Start/OnStart/Stop, and State.OnStart (catchupReplay, the corrupted->backup/repair/reload decision, repairWalFile, loadWalFile/OpenWAL) run on a State that carries only the WAL section's fields (hook VerifStartWithWAL; outcome read off the State's log). BaseWAL.Write/WriteSync are reproduced with the op's fixed time stamp (NewWALEncoder(group).Encode + FlushAndSync); the now-stamped height-0 marker OnStart writes is replaced by the same message with a fixed time",
 			"the round-state clause of the property (replay restores height/round/step/lock/votes) is not covered by this stream",
 		},
 		Extra: func() map[string]interface{} {
